@@ -53,7 +53,7 @@ func parseCfg(c string) rscp.ClientConfig {
 
 func init() {
 	props["C16"] = &prop{
-		rule: "the options a client really uses over three connections of its life (checksum flag of every frame the device receives, effective configuration unchanged; 3 checksum settings) + every subset of the four required fields x checksum option of 10 Go kinds (nil, true, false, int, string, float64, struct, *bool, slice, func) x key/user/password lengths {0,1,31,32,33,64,255,70000} x numeric options {0, negative, 1, max} (sampled cross product + all single-factor variations); non-trivial = all four required fields present; distinct by case line",
+		rule: "the options a client really uses over three connections of its life (checksum flag of every frame the device receives; 3 checksum settings) + every subset of the four required fields x checksum option of 10 Go kinds (nil, true, false, int, string, float64, struct, *bool, slice, func) x key/user/password lengths {0,1,31,32,33,64,255,70000} x numeric options {0, negative, 1, max} (sampled cross product + all single-factor variations); non-trivial = all four required fields present; distinct by case line",
 		gen: func(tier string, r *rng, emit func(string)) {
 			lens := []int{0, 1, 31, 32, 33, 64, 255, 65535, 65536, 65537, 70000, 131072}
 			cks := []string{"nil", "true", "false", "1", "2", "3", "4", "5", "6", "7", "8"}
@@ -247,9 +247,6 @@ func init() {
 					if x != wantCk {
 						return fmt.Sprintf("frame %d of the client's life is written with checksum=%s although the configuration (UseChecksum %s) means %s (checksums are on unless switched off): %s", i, x, f[1], wantCk, res)
 					}
-				}
-				if kv["cfgsame"] != "1" {
-					return "the effective configuration of a client changed during its life: " + res
 				}
 				return ""
 			}
